@@ -97,7 +97,70 @@ def run_c20(ctx):
             ctx.traces_validated += 1
             ctx.nontriv("bin:%s:%s" % (seed.hex()[:8], source))
             ctx.count("binary_runs")
+    rejected_configurations(ctx, seeds[:2] if not ctx.thorough else seeds[:10])
     proof_verdict(ctx)
+
+
+def rejected_configurations(ctx, seeds):
+    """start-up paths that END IN A REFUSAL also emit (error records, panic messages): every way a
+    configuration holding the real seed can be rejected, file and ENV, output scanned like the rest"""
+    import subprocess, tempfile
+    workdir = tempfile.mkdtemp(prefix="c20", dir=vlib.BUILD)
+    afile = os.path.join(workdir, "afile"); open(afile, "w").write("x")
+    variants = [
+        ("kms enabled, seed still plaintext (aws)", {"kms_protection": "arn:aws:kms:us-east-2:111122223333:key/1234abcd"}, None),
+        ("kms enabled, seed still plaintext (gcp)", {"kms_protection": "projects/p/locations/l/keyRings/r/cryptoKeys/k"}, None),
+        ("unknown kms_protection", {"kms_protection": "rot13"}, None),
+        ("port 0", {"port": 0}, None), ("batch_size 65", {"batch_size": 65}, None), ("batch_size 0", {"batch_size": 0}, None),
+        ("fault_percentage 51", {"fault_percentage": 51}, None), ("num_workers 0", {"num_workers": 0}, None),
+        ("port 70000", {"port": 70000}, None), ("batch_size 300", {"batch_size": 300}, None),
+        ("client_stats without directory", {"client_stats": "on"}, None),
+        ("persistence directory is a file", {"client_stats": "on", "persistence_directory": afile}, None),
+        ("persistence directory missing", {"client_stats": "on", "persistence_directory": os.path.join(workdir, "nope")}, None),
+        ("bad interface", {"interface": "not-an-address"}, None),
+        ("no interface", {"interface": None}, None),
+        ("yaml: trailing document marker", {}, "%s---\n"),
+        ("yaml: second document", {}, "%s---\nbatch_size: 4\n"),
+        ("yaml: unknown key", {"bogus_key": 1}, None),
+        ("yaml: non-integer batch_size", {"batch_size": "sixty"}, None),
+        ("yaml: list instead of map", {}, "- a\n- b\n%s"),
+        ("yaml: seed key twice", {}, "%sseed: 00\n"),
+        ("yaml: garbage after the settings", {}, "%s}{ not yaml\n"),
+    ]
+    for si, seed in enumerate(seeds):
+        for label, extra, tmpl in variants:
+            for source in ("file", "env"):
+                if source == "env" and (tmpl is not None or label.startswith("yaml")):
+                    continue
+                st = {"interface": "127.0.0.1", "port": procmod.free_port(), "seed": seed.hex()}
+                st.update(extra)
+                st = {k: v for k, v in st.items() if v is not None}
+                env = {k: v for k, v in os.environ.items() if not k.startswith("ROUGHENOUGH_")}
+                if source == "file":
+                    body = "".join("%s: %s\n" % (k, v) for k, v in st.items())
+                    path = os.path.join(workdir, "r%d.yaml" % (len(os.listdir(workdir))))
+                    open(path, "w").write((tmpl % body) if tmpl else body)
+                    arg = path
+                else:
+                    for k, v in st.items():
+                        env[procmod.ENVNAMES.get(k, "ROUGHENOUGH_" + k.upper())] = str(v)
+                    arg = "ENV"
+                try:
+                    pr = subprocess.run([vlib.SERVER_BIN, arg], env=env, stdout=subprocess.PIPE, stderr=subprocess.STDOUT, timeout=4)
+                    data, rc = pr.stdout, pr.returncode
+                except subprocess.TimeoutExpired as e:
+                    data, rc = (e.stdout or b""), "RUNNING"      # accepted after all: it served until killed
+                ctx.evaluations += 1
+                ctx.count("rejected-config:" + label)
+                rep = {"cmd": "rejected-config", "seed": seed.hex(), "source": source, "what": label,
+                       "settings": {k: str(v) for k, v in st.items()}, "rc": str(rc), "output": data.decode("utf-8", "replace")[-1500:]}
+                leaked = [name for name, pat in patterns(seed) if pat in data]
+                if leaked:
+                    ctx.violation("property", "the server's output for a refused configuration (%s, %s) contains %s" % (label, source, ", ".join(leaked)), rep); continue
+                ctx.traces_validated += 1
+                ctx.nontriv("rejected:%s:%s:%d" % (label, source, si))
+    import shutil
+    shutil.rmtree(workdir, ignore_errors=True)
 
 
 def replay(ctx, rep):
